@@ -56,6 +56,14 @@ func Conv(g *G, n int) []Program {
 			g.Emit(M{"op": "Int", "x": "r0", "into": g.PickS("", "12345678901234567890123456789")})
 			g.Emit(M{"op": "Rat", "x": "r0", "into": g.PickS("", "5")})
 			g.Emit(M{"op": "IsInt", "x": "r0"})
+		case k < 36: // integer parts whose binary length sits on a 64-bit word boundary (58, 135, 212, 270, 289 digits; 1368 for the mantissa)
+			n := g.Pick(58, 58, 135, 212, 270, 289, 38, 19, 57)
+			d := g.PickS("9", "8", "7") + g.Digits(n-1+g.Pick(0, 0, 5))
+			g.Load("r0", g.Bool(), strings.TrimRight(d, "0")+"1", int64(n), 0, g.Mode())
+			g.Emit(M{"op": "Int", "x": "r0", "into": ""})
+			g.Emit(M{"op": "Rat", "x": "r0", "into": g.PickS("", "5")})
+			g.Emit(M{"op": "Float64", "x": "r0"})
+			g.Emit(M{"op": "IsInt", "x": "r0"})
 		case k < 45: // arbitrary Decimals (moderate exponents), specials
 			tiny := false
 			switch g.R.Intn(8) {
